@@ -29,11 +29,23 @@ class Snap:
     pass
 
 
+class SList(list):
+    pass
+
+
+class SDict(dict):
+    pass
+
+
 def _copy_container(v, depth=2):
     if isinstance(v, list):
-        return [(_copy_container(x, depth - 1) if depth > 1 else x) for x in v]
+        r = SList((_copy_container(x, depth - 1) if depth > 1 else x) for x in v)
+        r.orig_id__ = getattr(v, 'orig_id__', id(v))
+        return r
     if isinstance(v, dict):
-        return {k: (_copy_container(x, depth - 1) if depth > 1 else x) for k, x in v.items()}
+        r = SDict((k, (_copy_container(x, depth - 1) if depth > 1 else x)) for k, x in v.items())
+        r.orig_id__ = getattr(v, 'orig_id__', id(v))
+        return r
     return v
 
 
@@ -94,6 +106,32 @@ def snapshot(v, memo=None, depth=3):
     if hasattr(v, '__dict__') and type(v).__name__ == 'TagLibrary':
         s.__dict__['dict__'] = dict(v.__dict__)
     return s
+
+
+def _collect_ids(v, acc, seen=None, depth=6):
+    """ids of every container / object reachable before the call (for is_fresh)."""
+    seen = set() if seen is None else seen
+    if isinstance(v, (int, float, str, bool, type(None))) or id(v) in seen or depth <= 0:
+        return
+    seen.add(id(v))
+    if isinstance(v, (list, tuple)):
+        acc.add(id(v))
+        for x in v:
+            _collect_ids(x, acc, seen, depth - 1)
+    elif isinstance(v, dict):
+        acc.add(id(v))
+        for x in v.values():
+            _collect_ids(x, acc, seen, depth - 1)
+    elif isinstance(v, type):
+        if hasattr(v, '_components'):
+            _collect_ids(v._components, acc, seen, depth - 1)
+    elif _is_repo_obj(v):
+        acc.add(id(v))
+        for n in _attr_names(v):
+            try:
+                _collect_ids(getattr(v, n), acc, seen, depth - 1)
+            except AttributeError:
+                pass
 
 
 def fingerprint(v, seen=None, depth=6):
@@ -240,6 +278,7 @@ def make_wrapper(key, cands, real, props):
         CURRENT[key] = True
         memo = {}
         old = S.Old(**{k: snapshot(v, memo) for k, v in env.items()})
+        _collect_ids(tuple(env.values()), old.ids__)
         fp_before = None
         if c.raises:
             fp_before = fingerprint(tuple(env.values()))
@@ -352,7 +391,7 @@ def _eval_clauses(key, kind, prefix, pred, env):
 def install(reg, props=None, only=None):
     """Wrap every checked contract's function (base variant only)."""
     for full, c in reg.contracts.items():
-        if c.kind != 'checked' or c.variant or '@' in full:
+        if c.kind != 'checked' or c.variant or '@' in full or not c.native:
             continue
         if only and full not in only:
             continue
